@@ -115,7 +115,7 @@ Definition denote_models (rs : list rec) : pdb :=
 (* metadata: the last record of each kind wins *)
 Definition last_some {A} (f : rec -> option A) (rs : list rec) : option A :=
   fold_left (fun acc r => match f r with Some x => Some x | None => acc end) rs None.
-Definition denote_id := last_some (fun r => match r with RHeader id => Some id | _ => None end).
+Definition denote_id := last_some (fun r => match r with RHeader id => Some (trim id) | _ => None end).
 Definition denote_remarks (rs : list rec) : list (Z * text) :=
   flat_map (fun r => match r with RRemark n t => [(n, trim_r t)] | _ => [] end) rs.
 Definition denote_cell := last_some (fun r => match r with RCryst cell _ => Some (map dec cell) | _ => None end).
